@@ -23,6 +23,7 @@ FAMILIES = [
     ("Sat3", "ring", ["direct", "earley", "cky"]),
     # signed real weights (a commutative ring): partial sums that are exactly zero before a later contribution arrives
     ("Rat", "signed", ["direct", "earley", "cky"]),
+    ("Log", "nocycle", ["direct", "earley", "cky"]),      # the shipped log-space semiring, judged as the reals exp(score)
 ]
 
 
